@@ -65,6 +65,16 @@ impl<'a> T<'a> {
         cl == "ok"
     }
 
+    fn status(&mut self, t: u32, h: u32) -> bool {
+        let res = self.cw.status_mined(&mut self.r.w, t, h);
+        let (cl, e) = class(&res);
+        let post = self.r.post();
+        let coins = self.cw.project(&self.r.w);
+        self.r.out.emit(&json!({"a": "txstatus", "t": t, "h": self.r.w.rel(h), "res": cl, "err": e, "post": post, "coins": coins}));
+        self.r.aborted |= cl == "panic";
+        cl == "ok"
+    }
+
     // shielded operations, each followed by the coin projection
     fn empties(&mut self, k: u32) {
         self.r.empties(k);
@@ -223,6 +233,27 @@ fn scenarios(out: &mut NdjsonWriter) {
         t.utxo(c1, Some(t.r.abs(6)));
         t.fulltx(s1, None);
         t.walk(2);
+    }
+
+    // G: unmined transactions whose mining the wallet learns from a status update (not from a second delivery)
+    {
+        id += 1;
+        let mut t = T::new(out, id, false, json!("tG status updates"));
+        t.prelude(3);
+        t.empties(4);
+        t.tip_top(); // tip 7
+        let c1 = t.cw.new_utxo(&mut t.r.rng, 1, 90_000);
+        t.utxo(c1, Some(t.r.abs(4)));
+        let e10 = t.r.abs(10);
+        let s1 = t.cw.new_tx(&mut t.r.rng, &[c1], 0, &[(2, 50_000), (0, 39_000)], e10);
+        t.fulltx(s1, None);
+        let s9 = t.cw.new_tx(&mut t.r.rng, &[], 1, &[(0, 1_000)], 0);
+        t.status(s9, t.r.abs(5)); // a transaction the wallet has never heard of
+        t.walk(2); // tip 9
+        t.status(s1, t.r.abs(9)); // mined just before it would have expired
+        t.walk(3); // tip 12: past the expiry height, the change still counts, the coin stays spent
+        t.trunc(t.r.abs(3), true);
+        t.walk(8); // un-mined by the rewind: the expiry height decides again
     }
 
     // D: a chain of unmined transactions (coin -> change -> change), delivered newest first
@@ -421,6 +452,16 @@ fn coin_op(t: &mut T, wk: &mut Walk) {
                     let want = if t.r.rng.gen_bool(0.1) { None } else { Some(some_height(t)) };
                     let h = height_for(t, tx, want);
                     t.utxo(c, h);
+                }
+            }
+        }
+        // the server answers a status request: a transaction the wallet has on record (or not) was mined
+        85..=89 => {
+            let uids: Vec<u32> = t.cw.txs.keys().copied().collect();
+            if let Some(uid) = uids.choose(&mut t.r.rng).copied() {
+                let want = Some(some_height(t));
+                if let Some(h) = height_for(t, uid, want) {
+                    t.status(uid, h);
                 }
             }
         }
